@@ -3,3 +3,4 @@ package absnfs
 // Stubs for the flavours that do not carry the scheduler scenarios.
 
 func c16Scenarios(thorough bool) []vScn { return nil }
+func c29Scenarios(thorough bool) []vScn { return nil }
